@@ -51,7 +51,9 @@ MANIFEST = dict(
          "by \\uc1 and followed by exactly one fallback character; the bytes on disk are 7-bit for every input. "
          "Tied to the code on every run: escaper vs model over all 1 112 064 scalar values (thorough; whole BMP + "
          "stratified astral planes in quick) and random strings, conversion on and off, the Lean reader judging the implementation's bytes; and "
-         "files written by write_rtf with the string in every text-bearing position read back by an RTF reader.",
+         "files written by write_rtf with the string in every text-bearing position read back by an RTF reader. "
+         "_escape_non_ascii is also translated from its Python source on every run and proved equal to the model's "
+         "escape for every string (Props/C10py.lean).",
     note="The reader (Model.Escape.decode / harness/rtfread.py: cp1252 for bytes >= 0x80, \\uN + \\uc skipping, "
          "surrogate pairs) is the specification. With conversion on, generated strings avoid conversion-triggering "
          "sequences (^ _ >= <= and backslash commands; those are C11's). That every document position calls the "
